@@ -1,5 +1,6 @@
 """C16 — QuickShift returns the basin partition of the density-ascent graph."""
 import itertools
+import json
 import multiprocessing as mp
 import warnings
 
@@ -132,12 +133,31 @@ def run(tier):
         r = core.model_check("QuickShiftAlg.tla", "mc/QuickShiftAlg_%s.cfg" % cfg, coverage=(cfg != "cut4"), timeout=4 * 3600, heap="32g")
         rep.add_mc("QuickShiftAlg[%s]: code-shaped ascent/propagation => valid labelling, all lattice inputs x weight orders x cut-offs" % cfg, r)
     # random exploration of larger instances: 7 points on a 5x5 lattice, staged generation, tlc -simulate
+    simcases = []
     for cfg in ("simcut", "simgab"):
         rs = core.run_tlc("QuickShiftAlg.tla", cfg="mc/QuickShiftAlg_%s.cfg" % cfg, workers=core.NCPU, simulate="num=%d" % (250 if quick else 30000), depth=40,
                           extra=["-seed", str(core.seed() + 5)], timeout=600 if quick else 3600, budget_ok=True, heap="8g")
         if rs["error"]:
             raise core.Machinery("QuickShiftAlg simulation %s: %s\n%s" % (cfg, rs["error"], core.tlc_error_excerpt(rs, 30)))
         rep.cov["parts"]["QuickShiftAlg simulation [%s], 7 points" % cfg] = {"states_checked": rs.get("sim_states", 0), "result": "no error"}
+        # spec -> code: every terminated behaviour TLC generated (tie-rich lattice inputs chosen by TLC) is run through the real
+        # QuickShift.fit and validated like any other recorded fit (a different but valid tie-break is not a violation; how
+        # often the code also reproduces the model's own tie-breaking is reported as coverage only)
+        seen, nrep, nsame = set(), 0, 0
+        for b in rs["records"]:
+            if not (isinstance(b, dict) and b.get("k") == "Q"):
+                continue
+            key = json.dumps([b["P"], b["W"], b["cut"]])
+            if key in seen or nrep >= (400 if quick else 6000):
+                continue
+            seen.add(key)
+            nrep += 1
+            mode = "cut" if b["mode"] == "cut" else "gabriel"
+            res = run_qs(b["P"], b["W"], mode, b["cut"], int(b["shell"]), [], 0, 1)
+            nsame += int((not res["raised"]) and res["labels"] == [int(v) for v in b["root"]])
+            simcases.append(mk("sim-%s-%d" % (cfg, nrep), "tlc-behaviour", np.asarray(b["P"]), np.asarray(b["W"]), mode, b["cut"], int(b["shell"]), [], res))
+        rep.cov["parts"]["QuickShiftAlg simulation [%s], 7 points" % cfg]["behaviours_replayed_in_the_code"] = nrep
+        rep.cov["parts"]["QuickShiftAlg simulation [%s], 7 points" % cfg]["labels_identical_to_the_model"] = nsame
         rep.cov["states"] += rs.get("sim_states", 0)
         rep.cov["transitions"] += rs.get("sim_states", 0)
     rep.cov["exhaustive"] = True
@@ -149,6 +169,7 @@ def run(tier):
     per = 14 if quick else 220
     with mp.Pool(core.NCPU) as pool:
         cases = [c for part in pool.map(gen, [(w, per, core.seed(), not quick) for w in range(core.NCPU)]) for c in part]
+    cases = cases + simcases
     verdicts, stats = core.validate_cases("trace/TraceQuickShift.tla", [strip(c) for c in cases], timeout=7200)
     rep.add_trace_stats("TraceQuickShift", stats, len(cases))
     core.judge(rep, cases, verdicts)
